@@ -53,6 +53,13 @@ fn registry() -> Vec<CheckDef>
 			case_timeout_ms: 20_000,
 			level_text: "exhaustive enumeration of all sequences of declarations (9 kinds x 3 visibilities) up to a length bound, i.e. every pattern of private zones; the real build_header output is compared with the parse of the model's projection and with the projection's model tree",
 		},
+		CheckDef {
+			id: "C20",
+			drive: checks::c20::drive,
+			work: checks::c20::work,
+			case_timeout_ms: 20_000,
+			level_text: "exhaustive enumeration of bounded derivations of the model grammar (every declaration, statement, type and expression form) and all corpus files; each is parsed, rebuilt, parsed again and rebuilt again by the real first-generation code, and the two trees and the two texts are compared",
+		},
 	]
 }
 
